@@ -263,3 +263,37 @@ Theorem C02_group_route_dispatch_partial :
        select U a' debug root fs method raw = fallback a' debug root fs m path).
 Proof. exact group_route_dispatch. Qed.
 Print Assumptions C02_group_route_dispatch_partial.
+
+(* ------------------------------------------------ tie to the source text *)
+(* gen/SelectGen.v is regenerated by harness/py2v_select.py from
+   Application.handler_from_table / handler_from_default of poorwsgi/wsgi.py
+   on every run: the order of the precedence tests, the conjuncts of each
+   test, the nesting, the leaf of every branch, first match wins in the
+   pattern loop and the constants are taken from the syntax.  The generated
+   dispatcher IS the model [select], for all tables, flags, methods, paths
+   and for every outcome of the file-system tests (exists, isfile, isdir,
+   access, document_index as five independent booleans; [fskind_of] reads
+   them in the order of the model's [fskind]) *)
+Require Import PW.gen.SelectGen PW.proofs.SelectGenEq.
+
+Theorem C02_generated_select_tests_is_model :
+  forall U a debug root idx ex isf isd acc method raw,
+    gen_handler_from_table U a debug root idx ex isf isd acc
+                           (method_number method) (req_path raw) =
+    select U a debug root (fskind_of idx ex isf isd acc) method raw.
+Proof. exact gen_select_tests_is_model. Qed.
+Print Assumptions C02_generated_select_tests_is_model.
+
+(* the same with the model's own argument ([gen_select]: the generated
+   dispatcher on the tests' outcomes that [fs] stands for) *)
+Theorem C02_generated_select_is_model :
+  forall U a debug root fs method raw,
+    gen_select U a debug root fs method raw =
+    select U a debug root fs method raw.
+Proof. exact gen_select_is_model. Qed.
+Print Assumptions C02_generated_select_is_model.
+
+Theorem C02_generated_default_is_model :
+  forall a m, gen_handler_from_default a m = from_default a m.
+Proof. exact gen_default_is_model. Qed.
+Print Assumptions C02_generated_default_is_model.
